@@ -124,9 +124,15 @@ def run(tier: str) -> int:
         power = float(rs.choice([0.0, 0.25, 1.0]))
         if it % 2:
             # temperature and delta are public attributes: built with other values, re-assigned before the step
-            fb = make(forces, delta * 3.0, T * 7.0, masses=masses, power=power, seed=int(rs.randint(1, 10**6)))
             if it % 4 == 1:
+                # a step has been made before, with ANOTHER force field; then the calculator is swapped (no atom moves):
+                # the step under test must be biased by the forces of the system it starts from
+                other = rs.choice(ks, size=(n, 3)) * math.log(2) * 2 * kB * T / delta
+                fb = make(other, delta * 3.0, T * 7.0, masses=masses, power=power, seed=int(rs.randint(1, 10**6)))
                 fb.step()
+                fb.atoms.calc = FixedForces(forces)
+            else:
+                fb = make(forces, delta * 3.0, T * 7.0, masses=masses, power=power, seed=int(rs.randint(1, 10**6)))
             fb.temperature = T
             fb.delta = delta
         else:
